@@ -49,7 +49,8 @@ class AttributesConverter(object):
         out.remote_jid = message_key.remote_jid
         out.from_me = message_key.from_me
         out.id = message_key.id
-        out.participant = message_key.participant
+        if message_key.participant is not None:
+            out.participant = message_key.participant
         return out
 
     def proto_to_message_key(self, proto):
